@@ -80,16 +80,7 @@ impl Writer {
                     proof { lemma_del_one_side_empty(m, current_node, left, right, normal.vv(), t0, tl, tr, tmp_nodes.tv(), to_delete@, cap, new_left, new_right, left_items@, right_items@, false); }
 //@hint before#2 <<<Ok((current_node, total_items))>>>
                     proof { lemma_del_keep(m, current_node, left, right, normal.vv(), t0, tl, tr, tmp_nodes.tv(), to_delete@, cap, new_left, new_right, left_items@, right_items@); }
-//@spec
-    requires
-        tree(tmap(rtxn.view(), self.index), tn(current_node)),
-        cap_of(options, self.dimensions) >= 1,
-        tmp_untouched(old(tmp_nodes).tv(), tnodes(tmap(rtxn.view(), self.index), tn(current_node))),
-    ensures
-        r matches Ok((id, its)) ==> del_post(tmap(rtxn.view(), self.index), current_node, old(tmp_nodes).tv(), final(tmp_nodes).tv(),
-                                             to_delete@, cap_of(options, self.dimensions), id, its@),
-        // C10: only faults are reported (never MissingKey on a well-formed tree)
-        r matches Err(e) ==> build_err(e),
+//@specfile lib/contracts/delete_items_in_file.spec
 //@end
 }
 
